@@ -8,7 +8,10 @@ def build(seed):
     rnd = random.Random(seed)
     tree, seal_ops, fs, pats = mutate.sealed_world(rnd)
     mut_ops, truth = ([], {"altered": set(), "removed": set(), "added": set()}) if rnd.random() < 0.25 else mutate.mutations(rnd, fs, pats)
-    checks = [{"op": "verify", "at": ""}, {"op": "diff", "at": ""}, {"op": "create", "at": "", "h": gen.fmt_subset(rnd, (1, 2)), "now": "2026-03-01 12:30:00"}]
+    if rnd.random() < 0.4:
+        seal_ops = seal_ops + [{"op": "verify", "at": ""}]  # the sealed tree is verified once before anything happens to it
+    checks = [{"op": "verify", "at": ""}, {"op": "diff", "at": ""}, {"op": "create", "at": "", "h": gen.fmt_subset(rnd, (1, 2)), "now": "2026-03-01 12:30:00"},
+              {"op": "verify", "at": "", "after_reseal": True}]
     if rnd.random() < 0.3:
         checks[0]["spell"] = rnd.choice(["slash", "relative", "cwd", "dot"])
     late = None
@@ -50,6 +53,7 @@ def monitor(sc, res):
     alt, rem, add = set(meta["altered"]), set(meta["removed"]), set(meta["added"])
     # files added below a removed... (not generated).  A removed directory's recorded children would be missing as well.
     steps = res["steps"][meta["n_seal"] + meta["n_mut"]:]
+    alt0, rem0 = set(meta["altered"]), set(meta["removed"])
     for st in steps:
         op, io_ = st["op"], st["impl"]
         if io_ is None:
@@ -73,6 +77,10 @@ def monitor(sc, res):
             exp = 11 if alt else (10 if rem else 0)
         if e != exp:
             fails.append({"what": f"{k}{' at ' + repr(at) if at else ''} exits {e}, expected {exp}: altered {sorted(alt)}, removed {sorted(rem)}, added {sorted(add)}, patterns {meta['patterns']}", "replay": sc})
+        if meta.get("exit_only"):
+            if k == "create":
+                break
+            continue
         if k in ("verify", "create") and set(io_["mismatch"]) != alt:
             fails.append({"what": f"{k} names hash mismatches {sorted(io_['mismatch'])}, altered files are {sorted(alt)}", "replay": sc})
         if set(io_["missing"]) != rem:
@@ -80,7 +88,15 @@ def monitor(sc, res):
         if k in ("verify", "diff") and set(io_["new"]) != add:
             fails.append({"what": f"{k} names new files {sorted(io_['new'])}, added files are {sorted(add)}", "replay": sc})
         if k == "create":
-            break  # the create re-seals: later commands see another reference
+            # the create re-seals: files that appeared are recorded now, but an altered file stays altered (the failed
+            # generation never becomes the reference) and a removed one stays missing
+            post = [s2 for s2 in steps[steps.index(st) + 1:] if s2["op"].get("after_reseal") and s2["impl"] is not None]
+            for s2 in post:
+                e2 = s2["impl"]["exit"]
+                exp2 = 11 if alt0 else (10 if rem0 else 0)
+                if s2["impl"]["exc"] is not None or e2 != exp2:
+                    fails.append({"what": f"verify after the re-sealing create exits {e2} {s2['impl']['exc'] or ''}, expected {exp2}: altered {sorted(alt0)} (a failed generation never becomes the reference), removed {sorted(rem0)}", "replay": sc})
+            break
     return fails
 
 
@@ -95,6 +111,12 @@ def fixed():
         checks = [{"op": "verify", "at": ""}, {"op": "diff", "at": ""}] + ([{"op": "verify", "at": "A"}, {"op": "diff", "at": "A"}] if "/" not in pat.rstrip("/") else []) + [{"op": "create", "at": "", "h": ["sha1"], "now": "2026-03-01 12:30:00"}]
         out.append({"profile": "c03-fixed", "root": "root", "tree": tree, "ops": seal + checks,
                     "c03": {"altered": [], "removed": [], "added": [], "patterns": [pat], "late_pattern": None, "n_seal": 4, "n_mut": 0}})
+    # names that begin or end with a blank (the report texts cannot be split reliably for such names: judged on exit
+    # codes only, which is what the flag says)
+    tree = {"notes.txt ": "n", " lead.txt": "l", "Day 1 /x.txt": "x", "plain.txt": "p"}
+    seal = [{"op": "create", "at": "", "h": ["md5"], "now": "2026-03-01 12:00:01"}]
+    out.append({"profile": "c03-blanks", "root": "root", "tree": tree, "ops": seal + [{"op": "verify", "at": ""}, {"op": "diff", "at": ""}, {"op": "create", "at": "", "h": ["sha1"], "now": "2026-03-01 12:30:00"}],
+                "c03": {"altered": [], "removed": [], "added": [], "patterns": [], "late_pattern": None, "n_seal": 1, "n_mut": 0, "exit_only": True}})
     return out
 
 
